@@ -1342,7 +1342,9 @@ int32 matrixResumeSession(ssl_t *ssl)
     {
         return PS_ARG_FAIL;
     }
-    if (ssl->sessionIdLen <= 0)
+    /* Session ids issued by this server are always full length; a shorter
+       (truncated) id must not match the front of a cached id */
+    if (ssl->sessionIdLen != SSL_MAX_SESSION_ID_SIZE)
     {
         return PS_ARG_FAIL;
     }
